@@ -164,7 +164,7 @@ Proof.
   intros H.
   assert (Hl : exists l m, fuse_stmts true true gd lv (eff_pred std_is_state false None) w1clash w1a w1b = FOk l /\
                            subst_of true true (eff_pred std_is_state false None) w1clash w1a w1b = Some m /\
-                           run_list F0 false (map lower l) (RRun w1store []) = RCrash false /\
+                           run_list F0 false (map lower l) (RRun w1store []) = RCrash false [] /\
                            m = [("tmp", "tmp_0"); ("<cond>", "<cond>_0"); ("<state>y", "<state>y_0"); ("<t>", "<t>_0")]).
   { destruct gd, lv; eexists; eexists; (split; [vm_compute; reflexivity|split; [vm_compute; reflexivity|
       split; [vm_compute; reflexivity|reflexivity]]]). }
@@ -218,7 +218,7 @@ Proof.
   intros H.
   assert (Hl : exists l m, fuse_stmts true true true false (eff_pred std_is_state true None) w3clash w3a w3b = FOk l /\
                            subst_of true true (eff_pred std_is_state true None) w3clash w3a w3b = Some m /\
-                           run_list F0 true (map lower l) (RRun w3store []) = RCrash false /\
+                           run_list F0 true (map lower l) (RRun w3store []) = RCrash false [] /\
                            m = [("i", "i_0")]).
   { eexists; eexists; (split; [vm_compute; reflexivity|split; [vm_compute; reflexivity|
       split; [vm_compute; reflexivity|reflexivity]]]). }
